@@ -30,6 +30,12 @@ def outer():
 def other():
     return 'a long literal value' + 'a long literal value'
 ''',
+    'literal that occurs only in a keyword-only default and in the body': '''
+def outer():
+    def inner(a, b='only in a default and the body', *, key='only in a keyword default and the body'):
+        return key, 'only in a keyword default and the body', 'only in a keyword default and the body', b, 'only in a default and the body'
+    return inner
+''',
     'bytes, and a literal used at module level too': '''
 DATA = b'some binary payload'
 def f():
@@ -124,7 +130,11 @@ def dehoist(original_source, text):
     scan(out)
     # uses must be inside the scope that owns the alias
     for nm, (value, scope, _i) in aliases.items():
-        inside = {id(n) for n in ast.walk(scope)}
+        if isinstance(scope, (ast.FunctionDef, ast.AsyncFunctionDef)):
+            # defaults, decorators and annotations of a function are evaluated in the enclosing scope, before the body runs
+            inside = {id(n) for st in scope.body for n in ast.walk(st)}
+        else:
+            inside = {id(n) for n in ast.walk(scope)}
         for n in ast.walk(out):
             if isinstance(n, ast.Name) and n.id == nm and id(n) not in inside:
                 problems.append('alias %s is used outside the scope in which it is assigned' % nm)
